@@ -199,6 +199,23 @@ func skipAlphabet() []fieldEnc {
 			out = append(out, fieldEnc{fmt.Sprintf("%d:len(%d)", n, l), n, refwire.Len, refwire.AppendBytes(refwire.AppendKey(nil, n, refwire.Len), pl)})
 		}
 	}
+	// padded keys: a valid, non-minimal varint key (the reference parsers accept it); the raw field includes
+	// every byte of such a key
+	pad := func(key []byte, extra int) []byte {
+		k := append([]byte{}, key...)
+		k[len(k)-1] |= 0x80
+		for i := 0; i < extra-1; i++ {
+			k = append(k, 0x80)
+		}
+		return append(k, 0x00)
+	}
+	for _, n := range []int{1, 16, 2047} {
+		for extra := 1; extra <= 2; extra++ {
+			out = append(out, fieldEnc{fmt.Sprintf("%d:padded-key+%d:varint(300)", n, extra), n, refwire.Varint, refwire.AppendVarint(pad(refwire.AppendKey(nil, n, refwire.Varint), extra), 300)})
+			out = append(out, fieldEnc{fmt.Sprintf("%d:padded-key+%d:fixed32", n, extra), n, refwire.Fixed32, refwire.AppendFixed32(pad(refwire.AppendKey(nil, n, refwire.Fixed32), extra), 0x80402010)})
+			out = append(out, fieldEnc{fmt.Sprintf("%d:padded-key+%d:len(1)", n, extra), n, refwire.Len, refwire.AppendBytes(pad(refwire.AppendKey(nil, n, refwire.Len), extra), []byte{0x80})})
+		}
+	}
 	return out
 }
 
@@ -457,7 +474,7 @@ func main() {
 	r.Sample(map[string]any{"skip_sequence": []string{alpha[3].desc, alpha[9].desc, alpha[len(alpha)-1].desc}, "modes": "safe,fast"})
 	r.Evals(cases.Load() + seqs.Load())
 	r.Nontrivial(cases.Load() + seqs.Load())
-	r.Rule("deterministic enumeration, cases pairwise distinct by construction. Triple case: csproto Encoder bytes must equal the spec-derived reference and protowire (the two references are cross-checked; disagreement = internal error), and the reference bytes must decode with the real Decoder (safe+fast) to the reference value with full consumption. Skip case: every sequence of <= L well-formed fields over the field alphabet (8 numbers x {4 varint widths, fixed64, fixed32, 4 LEN sizes}); DecodeTag+Skip must return input[start:end], leave the cursor at end, and the concatenation must reproduce the input. distinct_nontrivial = cases that reached the byte/value comparison (all of them).")
+	r.Rule("deterministic enumeration, cases pairwise distinct by construction. Triple case: csproto Encoder bytes must equal the spec-derived reference and protowire (the two references are cross-checked; disagreement = internal error), and the reference bytes must decode with the real Decoder (safe+fast) to the reference value with full consumption. Skip case: every sequence of <= L well-formed fields over the field alphabet (8 numbers x {4 varint widths, fixed64, fixed32, 4 LEN sizes} + 3 numbers x {key padded by 1 or 2 zero groups} x {varint, fixed32, LEN}); DecodeTag+Skip must return input[start:end], leave the cursor at end, and the concatenation must reproduce the input. distinct_nontrivial = cases that reached the byte/value comparison (all of them).")
 	r.Assume("keys are minimal (conforming writers); group wire types 3/4 are outside the supported set")
 	r.Finish()
 }
